@@ -67,7 +67,39 @@ _R = ("one evaluation = one seeded history of 4-30 resource-manager operations (
       "non-trivial = at least one allocation or re-allocation was committed; distinct = distinct hash of the full seam trace "
       "(task, store call, fault decision at every step)")
 
+def small(harness, rule, probes=(), level="exploration", quick=None, thorough=None, assumptions=None, **kw):
+    d = {"harness": harness, "level": level,
+         "quick": quick or {"seconds": 25, "runs": 8000},
+         "thorough": thorough or {"seconds": 600, "runs": 2000000},
+         "rule": rule, "assumptions": assumptions or CLU_ASSUME[:1] + CLU_ASSUME[4:], "expect_probes": list(probes)}
+    d.update(kw)
+    return d
+
+
+COMPONENTS["wal"] = {"real": ["wal (Hydro, HydroEvent)", "wal/kv (Lithium)", "go.etcd.io/bbolt on a real file"], "stub": ["event handlers (seeded outcomes)"]}
+COMPONENTS["txn"] = {"real": ["utils.Txn", "utils.PCR"], "stub": ["the three step functions (seeded outcomes)"]}
+COMPONENTS["lock"] = {"real": ["store/etcdv3/meta.CreateLock", "lock/etcdlock", "etcd client concurrency (Session, Mutex)", "etcd client lessor + KV"], "stub": ["etcd server (simetcd)"]}
+COMPONENTS["eph"] = {"real": ["store/etcdv3/meta.StartEphemeral", "etcd client lessor + KV"], "stub": ["etcd server (simetcd)"]}
+
 PROPS = {
+    "C16": small("wal", "one evaluation = a seeded history of 5-35 log / commit / burst / recover / clean reopen / crash-reopen operations by 1-3 concurrent logger tasks over three event types whose handlers succeed, fail, decline, fail the check or fail to decode, or are unregistered after a restart; "
+                 "every kv call (NextSequence, Put, Delete, Scan) and every handler call is a scheduler step, the process may die between any two of them (also inside a recovery) and the next instance opens a copy of the bbolt file taken at that step; 0-1 injected kv error; "
+                 "non-trivial = at least one event was logged or a crash happened; distinct = distinct seam-trace hash",
+                 probes=["logged", "recoveries", "recovery_with_events", "crash_reopen", "crash_inside_recovery", "burst"], fault_probes=["crash_reopen", "crash_inside_recovery"],
+                 assumptions=["bbolt's own atomicity is trusted (crash points are between kv calls, no torn pages)", "the harness observes event ids through the kv seam (keys /events/<hex id>)"]),
+    "C17": small("txn", "the space form{Txn,PCR} x condition{ok,fail} x follow-up{ok,fail,absent} x rollback{ok,fail,absent} x caller-cancellation point{none,before,in-cond,between,in-then,in-rollback,after} = 252 cases is enumerated by seed index, three times with step durations below, near and above the ttl; "
+                 "non-trivial = every case; distinct = distinct (case, call log) hash",
+                 quick={"seconds": 20, "runs": 1512}, thorough={"seconds": 60, "runs": 15120}, exhaustive_if_runs=756,
+                 assumptions=["steps are simulated tasks parked at the scheduler; the canceller acts at the named point"]),
+    "C18": small("lock", "one evaluation = 2-4 contenders, each with its own client and a fresh lock object per acquisition (as the cluster creates them), performing 4-11 lock / try-lock + hold + unlock rounds on one key with seeded hold times (some longer than the TTL, kept alive by keep-alives) and gaps, under fifo/random/sticky/PCT schedules; "
+                 "non-trivial = at least one acquisition; distinct = distinct seam-trace hash",
+                 probes=["acquired", "acquired_after_waiting", "trylock_refused"]),
+    "C19": small("lock", "as C18, and in a third of the rounds the holder loses its lock in the middle of a long hold: its lease is revoked at the server, or its client is cut off for 1.5 TTL so that the lease expires; the time between the loss at the server and the cancellation of the lock context is measured on the virtual clock; "
+                 "non-trivial = at least one acquisition; distinct = distinct seam-trace hash",
+                 probes=["loss_observed", "lease_revoked", "holder_paused", "entered_while_lost_holder_untold"], fault_probes=["lease_revoked", "holder_paused"]),
+    "C26": small("eph", "one evaluation = 2-3 registrants (own clients) registering one service key with StartEphemeral (heartbeat 6-12 s), holding, and deregistering, 3-8 rounds; in half of the rounds the registrant is cut off for 1.5 TTL or its lease is revoked at the server; ownership ground truth is read from the store; "
+                 "non-trivial = at least one registration; distinct = distinct seam-trace hash",
+                 probes=["registered", "registrant_paused", "registration_revoked", "registered_while_another_believes", "expiry_notified"], fault_probes=["registrant_paused", "registration_revoked"]),
     "C10": clu(_C + "sequential histories carry one injected store/plugin/engine/log failure (quick: 4 sampled positions per history after a fault-free measuring run; thorough: every position), "
                "concurrent histories (2-4 client tasks on their own workloads, random/sticky/PCT schedules) are checked at quiescence; " + _NT,
                level="fault_enumeration", quick={"seconds": 40, "runs": 1200, "sweep": "err:4"}, thorough={"seconds": 1200, "runs": 40000, "sweep": "err:all"},
@@ -115,7 +147,15 @@ _NOTE_RES = ("Trusted: the simetcd model of the plugin's etcd (KV/Txn/lease sema
 _NOTE_CLU = ("Trusted: simetcd and simengine as models of etcd and of node engines, the oracles in sim/harness/cluster_*.go, the Go runtime's "
              "determinism at GOMAXPROCS=1 with GC off (policed by trace-hash re-runs in a fresh process). A clean batch is evidence over the explored runs, not proof.")
 
+_NOTE_S = ("Trusted: simetcd as a model of etcd (leases on the virtual clock, txns, watches), the reference oracle of the harness, the Go runtime's determinism at GOMAXPROCS=1 with GC off "
+           "(policed by trace-hash re-runs). A clean batch is evidence over the explored runs, not proof.")
+
 MANIFEST_TEXT = {
+    "C16": {"text": "History check against a model of the log file: on every recovery the sequence of handler invocations must equal the uncommitted events in id order, each once (a prefix of it when the process dies inside the recovery); an event is gone exactly when it was handled successfully or declined; ids strictly increase over the whole history including restarts; the real file is compared with the model after every phase.", "note": "Trusted: bbolt's transaction atomicity; crash = death between two kv calls with the file copied at that instant. " + _NOTE_S},
+    "C17": {"text": "Complete enumeration (exhaustive: true in the evidence when all 252 x 3 cases ran) of outcome vectors x cancellation points for utils.Txn and utils.PCR under the simulator: call log and return value are compared with the specification (then iff cond ok; rollback once iff a step failed, with the right flag; first failure returned; rollback context not reached by the caller's cancellation; PCR rolls back only on commit failure).", "note": _NOTE_S},
+    "C18": {"text": "Contenders under seeded schedules on the etcd backend (real etcdlock + real concurrency.Mutex/Session + real lessor over simetcd): never two holders with a live lock context, a try-lock on a held lock fails without virtual time passing, a waiter acquires after a release or fails at its wait timeout, everybody finishes.", "note": _NOTE_S + " The Redis backend joins this check when the simulated Redis is available in the build (see DESIGN)."},
+    "C19": {"text": "Lease revocation and client pauses past the TTL while another contender waits: the holder's lock context must be cancelled within one keep-alive interval (TTL/3, plus the etcd lessor's 0.5-1 s polling granularity) of the loss at the server, and a stale holder may coexist with the next holder no longer than that.", "note": _NOTE_S},
+    "C26": {"text": "Registrants with pauses longer than the TTL, server-side revocation and deregistration: two registrants may both believe they hold the key only while the older one has not yet been able to complete a heartbeat tick; a lapsed registrant's expiry channel closes; deregistering or refreshing never touches a registration created by someone else (ownership read from the store).", "note": _NOTE_S + " The literal statement (never two believers) cannot be met by any lease scheme during the pause itself; the oracle demands it once the stale registrant could have learnt of its lapse."},
     "C10": {"text": "Whole-system simulation: real Calcium/cobalt/cpumem/Mercury/etcd-concurrency/WAL over simulated etcd and engines. After every operation of a sequential history (each history swept with single injected failures) and at quiescence of concurrent histories, every node's recorded usage must equal the sum of the workloads recorded on it and the node resource check must report no differences.", "note": _NOTE_CLU},
     "C11": {"text": "Fault enumeration over the seam calls of every operation kind: for each single failing step, the canonical snapshot of store, plugin records and engine containers after a call that reported failure must equal the snapshot before it (item-wise for multi-item calls; a failed replace keeps the old workload recorded and running).", "note": _NOTE_CLU},
     "C12": {"text": "For every create the result stream must close and carry either one failure with nothing created or exactly one message per instance of the plan the deployment executed; successes must be recorded, running and placed as reported, failures must leave no record, container or usage. With and without one injected failure.", "note": _NOTE_CLU},
